@@ -102,6 +102,15 @@ check("C13", "TLC check of Paths laws + enumeration of (base, rel) pairs and mul
       "DESIGN.md §4.6, §6 C13")
 
 
+check("C20", "TLC check of Group (order independence, import = add) + replay of every history in fresh processes",
+      "TLC checks on spec/Group.tla that a canonical emitter's artefact is independent of the map walk order and of the "
+      "history (a non-canonical one is shown to violate it: config GroupDefect), and that importing a group equals adding "
+      "its files; every history of MCGroup (add / re-add / remove / import-group over 3 paths x 2 contents) is replayed "
+      "into the real TmplGroup in 4-8 fresh processes and all artefacts must be byte-identical per final map; stylesheet "
+      "outputs and source maps likewise across processes.",
+      "DESIGN.md §4.6, §6 C20")
+
+
 def main():
     props = [json.loads(l) for l in open(os.path.join(HERE, "properties.jsonl"))]
     ids = [p["id"] for p in props]
